@@ -47,6 +47,7 @@ ROUTINES = {
     "gls254": ["set_mul_add_mulgen_vartime", "set_mul64mu_add_mulgen_vartime"],
 }
 QUICK = ["ed25519", "p256"]
+STRAIGHT = {("gls254", "set_mul_add_mulgen_vartime")}
 NCHUNK = 16
 
 
@@ -74,7 +75,18 @@ def make_args(it, name, fn):
         it.int_gen.append((U, Lin.gen("P")))
         u = SymV(z3.Int2BV(U, 128), 128, False, U)
         return cell, [Ref(cell), u, Ref(Cell(ScalarTok("v")))]
+    if fn == "set_mul64mu_add_mulgen_vartime":
+        U0, U1 = z3.Int("u0"), z3.Int("u1")
+        for U in (U0, U1):
+            it.assumptions.append(z3.And(U >= 0, U < (1 << 64)))
+        it.int_gen.append((U0, Lin.gen("P")))
+        it.int_gen.append((U1, Lin.gen("P").endo(it.cfg.endo)))
+        return cell, [Ref(cell), SymV(z3.Int2BV(U0, 64), 64, False, U0), SymV(z3.Int2BV(U1, 64), 64, False, U1),
+                      Ref(Cell(ScalarTok("v")))]
     return cell, [Ref(cell), Ref(Cell(ScalarTok("u"))), Ref(Cell(ScalarTok("v")))]
+
+
+ACC_MODE = {("gls254", "set_mul64mu_add_mulgen_vartime"): 5}     # plain accumulate loops: window bits
 
 
 def scout(name, fn):
@@ -114,7 +126,13 @@ def task_chunk(name, fn, lo, hi, L):
     def mine(fr):
         return fr.body.name.startswith(top) and fr.body.name.endswith("::" + fn)
 
+    wbits = ACC_MODE.get((name, fn))
+    accmode = wbits is not None
+    base_w = wbits or 1
+
     def read_state(fr):
+        if accmode:
+            return BoolV(False), IntV(0, 32), interp_lin(fr)
         zz = fr.cell(fr.debug_local("zz")).val
         nd = fr.cell(fr.debug_local("ndbl")).val
         acc = interp_lin(fr)
@@ -154,6 +172,10 @@ def task_chunk(name, fn, lo, hi, L):
 
     def havoc(fr, tag):
         nonlocal gens
+        if accmode:
+            W = Lin({g: z3.Int("W_%s_%s_%d" % (tag, g[0], g[1])) for g in gens})
+            fr.cell(1).val.set(it.wrap(W))
+            return W
         zzv = z3.Bool("zz_%s" % tag)
         N = z3.Int("N_%s" % tag)
         it.assumptions.append(z3.And(N >= 0, N <= 100000))
@@ -164,6 +186,9 @@ def task_chunk(name, fn, lo, hi, L):
         return Lin.ite(zzv, Lin(), W)
 
     def park(fr):
+        if accmode:
+            fr.cell(1).val.set(it.wrap(Lin()))
+            return
         fr.cell(fr.debug_local("zz")).val = BoolV(True)
         fr.cell(fr.debug_local("ndbl")).val = IntV(0, 32)
         fr.cell(1).val.set(it.wrap(Lin()))
@@ -187,7 +212,12 @@ def task_chunk(name, fn, lo, hi, L):
                 raise PathEnd()
             st["cur"] = None
         else:
-            if st["init"] is None and col == L - 1:
+            if st["init"] is None and accmode:
+                if col == L - 2 and hi == L - 1:
+                    zz, nd, acc = read_state(fr)
+                    st["items"].append((L - 1, list(it.path), Lin(), value(zz, nd, acc)))
+                st["init"] = True
+            elif st["init"] is None and col == L - 1:
                 zz, nd, acc = read_state(fr)
                 st["init"] = (isinstance(zz, IntV) and not isinstance(zz, SymV) and bool(zz.v)) or \
                     (isinstance(zz, BoolV) and bool(zz.v))
@@ -237,9 +267,9 @@ def task_chunk(name, fn, lo, hi, L):
                     for g, c in gl.c.items():
                         from engines.polyid.algo import _mul_int
                         term = _mul_int(_iv(dv), c) if not isinstance(c, int) else _iv(dv) * c
-                        D = D + Lin({g: term * (1 << (m * L)) if m else term})
+                        D = D + Lin({g: term * (1 << (base_w * m * L)) if m else term})
                     m += 1
-            want = V0.scale(2) + D
+            want = V0.scale(1 << base_w) + D
         else:
             want = V0
         keys = set(V1.c) | set(want.c)
@@ -268,7 +298,58 @@ def task_chunk(name, fn, lo, hi, L):
     return res
 
 
+def task_straight(name, fn):
+    """windowed (Booth) two-scalar routine without data-dependent control flow:
+    decided like C04's set_mul, over Z[mu] on (P, B)"""
+    cfg, base = K4.config_for(name)
+    it = AlgoInterp(MIR, cfg)
+    it.scalar_gen = {"u": Lin.gen("P"), "v": Lin.gen("B")}
+    cell = Cell(it.wrap(Lin.gen("P")))
+    it.run(it.find_fn(name, "Point", fn), [Ref(cell), Ref(Cell(ScalarTok("u"))), Ref(Cell(ScalarTok("v")))])
+    out = it.as_lin(cell.val)
+    res = {"fails": [], "unknown": [], "secs": 0.0, "queries": 0, "ops": dict(it.ops),
+           "fns": sorted(n for n in it.executed if "::<impl" in n)}
+    if it.ops.get("lookup", 0) < 20 or len(it.splits_seen) != 2:
+        raise Machinery("%s.%s: unexpected shape %r" % (name, fn, it.ops))
+    want = {}
+    for src, k0, k1 in it.splits_seen:
+        g = "P" if src.name == "u" else "B"
+        want[(g, 0)] = k0
+        want[(g, 1)] = k1
+    for lab, stt, secs in it.lemmas:
+        res["queries"] += 1
+        res["secs"] += secs
+        if stt != "unsat":
+            res["unknown"].append("lemma not proved: " + lab)
+    keys = set(out.keys()) | set(want)
+    goal = z3.And([_iv(out.get(k)) == _iv(want.get(k, 0)) for k in sorted(keys)])
+    stt, secs, mdl = decide(it.assumptions, goal, Z3_TIMEOUT_MS)
+    res["queries"] += 1
+    res["secs"] += secs
+    if stt == "sat":
+        res["fails"].append("coefficients differ from (u, v)")
+    elif stt != "unsat":
+        res["unknown"].append("coefficient query: " + stt)
+    side = {}
+    for lab, c in it.side:
+        side.setdefault(lab, []).append(c)
+    for lab, cs in side.items():
+        stt, secs, mdl = decide(it.assumptions, z3.And(cs), Z3_TIMEOUT_MS)
+        res["queries"] += 1
+        res["secs"] += secs
+        if stt == "sat":
+            res["fails"].append("side condition fails: " + lab)
+        elif stt != "unsat":
+            res["unknown"].append("side condition %s: %s" % (lab, stt))
+    return res
+
+
 def work(task):
+    if task[0] == "straight":
+        try:
+            return task_straight(task[1], task[2])
+        except NotAbstractable as e:
+            return {"na": str(e)[:300]}
     if task[0] == "recoder":
         from engines.polyid.recoders import NAFS, recoder_task
         _, name, fn = task
@@ -345,6 +426,7 @@ def run(tier, only=None):
     routines = [(c, fn) for c in names for fn in ROUTINES[c] if not fsel or fn in fsel]
     tasks = []
     meta = {}
+    straight_meta = []
     obs = []
     merr = None
     for c, fn in routines:
@@ -356,6 +438,14 @@ def run(tier, only=None):
         o.hint = dict(curve=c, func=fn)
         o.candidate = False
         obs.append(o)
+        if (c, fn) in STRAIGHT:
+            o.name = "%s.%s:coefficients" % (c, fn)
+            o.desc = ("straight-line windowed routine executed with splits / recoders / vartime lookups replaced by "
+                      "their contracts: the result is (k0(u) + k1(u) mu) P + (k0(v) + k1(v) mu) B")
+            o.bounds = "all split halves in [0, 2^128) with all signs, all digit vectors in the recoders' ranges"
+            straight_meta.append((o, len(tasks)))
+            tasks.append(("straight", c, fn))
+            continue
         try:
             L, sc_it = scout(c, fn)
             if not L:
@@ -364,7 +454,11 @@ def run(tier, only=None):
             o.unknown("not abstractable: %s" % str(e)[:300])
             o.not_abstractable = True
             continue
-        step = max(1, (L + NCHUNK - 1) // NCHUNK)
+        if (c, fn) in ACC_MODE:
+            L = L + 1           # the top column is processed before the loop
+            step = L
+        else:
+            step = max(1, (L + NCHUNK - 1) // NCHUNK)
         mine = []
         for lo in range(0, L, step):
             t = (c, fn, lo, min(L - 1, lo + step - 1), L)
@@ -390,6 +484,26 @@ def run(tier, only=None):
             rec_meta.append((ro, len(tasks), c, fn, spec))
             tasks.append(("recoder", c, fn))
     res = pmap(work, tasks, nproc=NCPU, timeout=220 if tier == "quick" else 1700) if tasks else []
+    for o, ti in straight_meta:
+        stt, val = res[ti]
+        if stt != "ok":
+            o.unknown("%s: %s" % (stt, str(val)[:300]))
+            if stt == "err":
+                merr = merr or "task %r: %s" % (tasks[ti], str(val)[:400])
+            continue
+        if "na" in val:
+            o.unknown("not abstractable: " + val["na"])
+            o.not_abstractable = True
+            continue
+        o.functions = val["fns"]
+        solver = "%s (unsat on %d queries)" % (Z3_VERSION, val["queries"])
+        if val["fails"]:
+            o.unknown("candidate: " + "; ".join(val["fails"][:4]), solver, val["secs"], val["queries"])
+            o.candidate = True
+        elif val["unknown"]:
+            o.unknown("; ".join(val["unknown"][:4]), solver, val["secs"], val["queries"])
+        else:
+            o.ok(solver, val["secs"], val["queries"])
     for ro, ti, c, fn, spec in rec_meta:
         stt, val = res[ti]
         if stt != "ok":
